@@ -6,7 +6,10 @@
      W body unknown prog seg|seg|..    -> per propagate "tr tri values0 sel0 sel1 out0" joined by " | "
      S r0 r1 .. ; p0 p1 ..             -> "1" | "0"   (Spec: rows sorted and same multiset as the per-CPU values)
      B body unknown prog tt ss idle    -> bd_value as an int64 (null = 0)
-     O body unknown prog seg|seg|..    -> per batch "<batch_ok> <sval = bd_of>" (model only) joined by " | " *)
+     O body unknown prog seg|seg|..    -> per batch "<batch_ok> <sval = bd_of>" (model only) joined by " | "
+   W and O run the model of the repaired connect_cpu (fx = true: mux_add_reselect on the task type);
+   w and o are the same for the code before /repo commit bca364a (fx = false), used only to say
+   which of the two a disagreeing tree behaves like. *)
 open Sortmod_x
 
 (* ---- conversions (int64 <-> extracted Z, int <-> extracted nat) *)
@@ -103,7 +106,7 @@ let cin_of_key k =
 
 let sel_string = function None -> "-1" | Some false -> "0" | Some true -> "1"
 
-let do_wiring body unknown prog script verdicts =
+let do_wiring fx body unknown prog script verdicts =
   let segs = String.split_on_char '|' script in
   let st = ref w_init in
   let sm = ref (sm_init (nat_of_int 1)) in
@@ -113,8 +116,8 @@ let do_wiring body unknown prog script verdicts =
       else begin
         (* no dedupe here: the model's apply_writes keeps first-write order and last value itself *)
         let b = List.map (fun (k, v) -> (cin_of_key k, v)) (parse_sets (String.trim seg)) in
-        let ok = batch_ok body !st b in
-        match cpu_event body unknown prog !st b with
+        let ok = batch_ok fx body !st b in
+        match cpu_event fx body unknown prog !st b with
         | None -> failed := true; Some "error"
         | Some st' ->
           st := st';
@@ -161,10 +164,11 @@ let () =
             | 'M' ->
               let (hd, script) = split_first_n 1 rest in
               (match hd with [n] -> do_module (int_of_string n) script | _ -> "?")
-            | 'W' | 'O' ->
+            | 'W' | 'O' | 'w' | 'o' ->
               let (hd, script) = split_first_n 3 rest in
               (match hd with
-               | [b; u; p] -> do_wiring (zs b) (zs u) (zs p) script (line.[0] = 'O')
+               | [b; u; p] ->
+                 do_wiring (line.[0] = 'W' || line.[0] = 'O') (zs b) (zs u) (zs p) script (line.[0] = 'O' || line.[0] = 'o')
                | _ -> "?")
             | 'S' ->
               (match String.split_on_char ';' rest with
